@@ -11,6 +11,7 @@ import AstGrepVerif.Model.Select
 import AstGrepVerif.Model.Topo
 import AstGrepVerif.Spec.Select
 import AstGrepVerif.Lemmas.Select
+import AstGrepVerif.Lemmas.Order
 import AstGrepVerif.Generated.Tables
 
 set_option linter.unusedSimpArgs false
@@ -85,12 +86,12 @@ example :
 /-- **Precedence**: language globs first, then custom languages, then the built-in table. -/
 theorem fromPath_precedence (env : Env) (p : Path) (l : Lang) :
     fromPath env p = some l ↔
-      langGlobsFromPath env.typeMatch env.langGlobs p = some l ∨
-      (langGlobsFromPath env.typeMatch env.langGlobs p = none ∧
+      langGlobsFromPath env.typeMatch (registerLangGlobs env.langGlobs) p = some l ∨
+      (langGlobsFromPath env.typeMatch (registerLangGlobs env.langGlobs) p = none ∧
         (customFromPath env.customExts p = some l ∨
          (customFromPath env.customExts p = none ∧ builtinFromPath p = some l))) := by
   unfold fromPath
-  cases langGlobsFromPath env.typeMatch env.langGlobs p with
+  cases langGlobsFromPath env.typeMatch (registerLangGlobs env.langGlobs) p with
   | some l' => simp
   | none => cases customFromPath env.customExts p with
     | some l' => simp
@@ -119,19 +120,44 @@ theorem langGlobsFromPath_none {tm : Glob → Path → Bool} {lg : List (Lang ×
     · next hm => simp [hm]
     · next hm => simp only [ih]; simp [hm]
 
-/-- **H21, full statement — false.** `languageGlobs` is a `HashMap`; `register_impl` pushes the
-entries in its iteration order and `from_path` returns the first match. When the globs of two
-languages overlap, the language of a file — hence the rules that run on it — depends on the hash
-order: `ts: ["*.foo"], js: ["*.foo"]` on `a.foo` (globs abstracted to numbers). Confirmed on the
-real CLI (different rule sets in different process launches). -/
+/-- **H21, why the entries are sorted.** `languageGlobs` is a `HashMap`; before 1c5d0c8
+`register_impl` pushed the entries in the map's iteration order (`registerLangGlobsUnsorted`)
+and `from_path` returns the first match: when the globs of two languages overlap, the language of
+a file — hence the rules that run on it — depended on the hash order: `ts: ["*.foo"],
+js: ["*.foo"]` on `a.foo` (globs abstracted to numbers; keys `ts` = [116,115], `js` = [106,115]).
+Was confirmed on the real CLI (different rule sets in different process launches). -/
 theorem langGlobs_order_dependent_counterexample :
     let tm : Glob → Path → Bool := fun _ _ => true
-    langGlobsFromPath tm [(21, [[1]]), (10, [[1]])] [97] = some 21 ∧
-    langGlobsFromPath tm [(10, [[1]]), (21, [[1]])] [97] = some 10 := by
+    langGlobsFromPath tm (registerLangGlobsUnsorted [([116,115], 21, [[1]]), ([106,115], 10, [[1]])]) [97] = some 21 ∧
+    langGlobsFromPath tm (registerLangGlobsUnsorted [([106,115], 10, [[1]]), ([116,115], 21, [[1]])]) [97] = some 10 := by
   decide
 
-/-- **H21, provable restriction.** If all entries whose globs match the path name the same
-language, every iteration order of the map gives the same answer. -/
+/-- **H21 for the code as it is now.** The entries are sorted by key before they are
+registered, so the registered vector — hence `from_path`, the language of every path — is the
+same for every iteration order of the `languageGlobs` map (keys pairwise different). -/
+theorem langGlobs_sorted_order_irrelevant (entries entries' : List (Bytes × Lang × List Glob))
+    (hp : entries.Perm entries') (hk : (entries.map (·.1)).Nodup) :
+    registerLangGlobs entries = registerLangGlobs entries' ∧
+    ∀ (env : Env) (p : Path), fromPath { env with langGlobs := entries } p =
+      fromPath { env with langGlobs := entries' } p := by
+  have h : registerLangGlobs entries = registerLangGlobs entries' := by
+    unfold registerLangGlobs
+    congr 1
+    refine AGV.Topo.sortBy_canonical (lt := fun (a b : Bytes × Lang × List Glob) => AGV.Topo.bytesLt a.1 b.1)
+      (fun a b c => AGV.Topo.bytesLt_trans a.1 b.1 c.1) (fun a b => AGV.Topo.bytesLt_asymm a.1 b.1) hp ?_
+    have := List.pairwise_map.mp (List.nodup_iff_pairwise_ne.mp hk)
+    exact this.imp (fun {a b} h => AGV.Topo.bytesLt_total a.1 b.1 h)
+  exact ⟨h, fun env p => by simp only [fromPath, h]⟩
+
+/-- the same two maps as in the counter-example give the same language now (`js` < `ts`) -/
+example :
+    let tm : Glob → Path → Bool := fun _ _ => true
+    langGlobsFromPath tm (registerLangGlobs [([116,115], 21, [[1]]), ([106,115], 10, [[1]])]) [97] = some 10 ∧
+    langGlobsFromPath tm (registerLangGlobs [([106,115], 10, [[1]]), ([116,115], 21, [[1]])]) [97] = some 10 := by
+  decide
+
+/-- **H21, restriction that held before the fix too.** If all registered entries whose globs
+match the path name the same language, every registration order gives the same answer. -/
 theorem langGlobs_order_irrelevant_partial (tm : Glob → Path → Bool) (lg lg' : List (Lang × List Glob))
     (hp : lg.Perm lg') (p : Path)
     (huniq : ∀ e1 ∈ lg, ∀ e2 ∈ lg, e1.2.any (fun g => tm g p) = true → e2.2.any (fun g => tm g p) = true → e1.1 = e2.1) :
@@ -444,22 +470,40 @@ example :
 
 /-! ## the walker's type filter -/
 
+/-- no two registered `languageGlobs` entries name the same language (e.g. not both `js` and
+`javascript`) -/
+def DistinctGlobLangs (env : Env) : Prop :=
+  (registerLangGlobs env.langGlobs).Pairwise (fun a b => a.1 ≠ b.1)
+
+theorem find_lang_entry {lg : List (Lang × List Glob)} (hpw : lg.Pairwise (fun a b => a.1 ≠ b.1))
+    {e : Lang × List Glob} (he : e ∈ lg) : lg.find? (fun e' => e'.1 = e.1) = some e := by
+  induction lg with
+  | nil => simp at he
+  | cons e0 lg ih =>
+    obtain ⟨h0, hpw'⟩ := List.pairwise_cons.mp hpw
+    rcases List.mem_cons.mp he with rfl | he
+    · simp [List.find?_cons]
+    · have : ¬ e0.1 = e.1 := h0 e he
+      simp [List.find?_cons, this, ih hpw' he]
+
 theorem langGlobsFromPath_entry {tm : Glob → Path → Bool} {lg : List (Lang × List Glob)} {p : Path} {l : Lang}
+    (hpw : lg.Pairwise (fun a b => a.1 ≠ b.1))
     (h : langGlobsFromPath tm lg p = some l) :
-    ((lg.filter (fun e => e.1 = l)).any (fun e => e.2.any (fun g => tm g p))) = true := by
+    ((langTypes lg l).any (fun g => tm g p)) = true := by
   obtain ⟨e, he, h1, h2⟩ := langGlobsFromPath_some h
-  simp only [List.any_eq_true, List.mem_filter, decide_eq_true_eq]
-  obtain ⟨g, hg, hm⟩ := List.any_eq_true.mp h2
-  exact ⟨e, ⟨he, h1⟩, g, hg, hm⟩
+  unfold langTypes
+  rw [← h1, find_lang_entry hpw he]
+  exact h2
 
 /-- the file's own language always passes its own type definition: the walker's type globs are
 built from the same tables `from_path` reads (extension ⇒ name ends in `.ext`; language globs are
 the very same matcher) -/
-theorem fromPath_typeMatch (env : Env) (p : Path) (fl : Lang) (h : fromPath env p = some fl) :
+theorem fromPath_typeMatch (env : Env) (hd : DistinctGlobLangs env) (p : Path) (fl : Lang)
+    (h : fromPath env p = some fl) :
     langTypeMatch env fl p = true := by
   unfold langTypeMatch
   rcases (fromPath_precedence env p fl).mp h with h | ⟨_, h | ⟨_, h⟩⟩
-  · rw [langGlobsFromPath_entry h]; simp
+  · rw [langGlobsFromPath_entry hd h]; simp
   · unfold customFromPath at h
     cases hx : extension p with
     | none => rw [hx] at h; cases h
@@ -483,8 +527,10 @@ theorem fromPath_typeMatch (env : Env) (p : Path) (fl : Lang) (h : fromPath env 
 /-- **`walker_filter_agrees`.** The walker's file-type filter (built from the languages of the
 enabled rules, plus the languages that can host them) never hides a file from a rule that applies
 to one of its documents: whenever `rulesOn` is non-empty for a path that is not below a hidden
-directory, the walker visits the path. -/
-theorem walker_filter_agrees (env : Env) (cs : List Rule) (c : Collection) (htn : tryNew env cs = some c)
+directory, the walker visits the path — provided no two `languageGlobs` keys name the same
+language (`walker_filter_alias_counterexample` otherwise). -/
+theorem walker_filter_agrees (env : Env) (hd : DistinctGlobLangs env) (cs : List Rule) (c : Collection)
+    (htn : tryNew env cs = some c)
     (p : Path) (l : Lang) (r : Rule) (h : (l, r) ∈ rulesOn env c p) (hvis : underHiddenDir p = false) :
     walkerVisits env c p = true := by
   obtain ⟨hok, _, _⟩ := tryNewLoop_spec env cs ⟨[], []⟩ c htn ⟨by simp, by simp⟩ (by simp)
@@ -499,7 +545,7 @@ theorem walker_filter_agrees (env : Env) (cs : List Rule) (c : Collection) (htn 
     · exact ⟨x, .inr hc, hlang⟩
   -- the file's own language passes; an embedded language is hosted by it
   obtain ⟨fl, hfl, hcase⟩ := (mem_docLangs env p l').mp hl'
-  have htm := fromPath_typeMatch env p fl hfl
+  have htm := fromPath_typeMatch env hd p fl hfl
   have hsel : typeSelected env ((allRules c).map (·.lang)) p = true := by
     unfold typeSelected
     rw [List.any_eq_true]
@@ -525,6 +571,23 @@ theorem walker_filter_agrees (env : Env) (cs : List Rule) (c : Collection) (htn 
     | cons _ _ => rfl
   simp only [hne, Bool.false_eq_true, if_false, hsel, hvis, Bool.not_false, Bool.and_self]
 
+/-- **Two keys for one language — the type filter hides a file.** `lang_globs::get_types`
+returns the *first* registered entry of a language, so with `js: ["*.bar"]` and
+`javascript: ["*.baz"]` (registered in the order `javascript`, `js`) the walker's file types for
+JavaScript contain `*.baz` only: `x.bar` is JavaScript for `from_path` and the JavaScript rule
+applies to it, but the walker never visits it (unless the type filter of another rule's language
+happens to let it through). Confirmed on the real CLI; recorded in KNOWN_FINDINGS.
+Globs: `*.bar` = [1], `*.baz` = [2]; path `x.bar` = [120,46,98,97,114]. -/
+theorem walker_filter_alias_counterexample :
+    let xbar : Path := [120,46,98,97,114]
+    let env : Env := ⟨fun _ _ => true, fun _ => true, fun g p => g = [1] ∧ p = xbar,
+      [([106,115], 10, [[1]]), ([106,97,118,97,115,99,114,105,112,116], 10, [[2]])], [], injectTable,
+      fun _ => [], fun _ _ _ => 1, fun _ _ _ => 0⟩
+    let rJs : Rule := ⟨[97], 10, .hint, none, none⟩
+    ∃ c, tryNew env [rJs] = some c ∧ rulesOn env c xbar = [(10, rJs)] ∧ underHiddenDir xbar = false ∧
+      walkerVisits env c xbar = false := by
+  exact ⟨_, rfl, by decide, by decide, by decide⟩
+
 /-- non-vacuity: a TypeScript rule and `src/a.ts`; an Html file with a `<script>` is visited for a
 JavaScript rule (hosted language), `.hid/a.ts` is not visited, a hidden *file* `.h.ts` is -/
 example :
@@ -532,13 +595,13 @@ example :
       fun p => if p = [97,46,104,116,109,108] then [10] else [], fun _ _ _ => 1, fun _ _ _ => 0⟩
     let rTs : Rule := ⟨[97], 21, .hint, none, none⟩
     let rJs : Rule := ⟨[98], 10, .hint, none, none⟩
-    ∃ c, tryNew env [rTs, rJs] = some c ∧
+    DistinctGlobLangs env ∧ ∃ c, tryNew env [rTs, rJs] = some c ∧
       rulesOn env c [115,114,99,47,97,46,116,115] = [(21, rTs)] ∧
       walkerVisits env c [115,114,99,47,97,46,116,115] = true ∧
       rulesOn env c [97,46,104,116,109,108] = [(10, rJs)] ∧
       walkerVisits env c [97,46,104,116,109,108] = true ∧
       walkerVisits env c [46,104,105,100,47,97,46,116,115] = false ∧
       walkerVisits env c [46,104,46,116,115] = true := by
-  exact ⟨_, rfl, by decide, by decide, by decide, by decide, by decide, by decide⟩
+  exact ⟨by simp [DistinctGlobLangs, registerLangGlobs, AGV.Topo.sortBy], _, rfl, by decide, by decide, by decide, by decide, by decide, by decide⟩
 
 end AGV.C15
